@@ -234,3 +234,158 @@ func runTiming(sc Scenario) (res Result) {
 	res.Sc.Rounds = [][]Action{{{Pub: 0, Kind: "explicit", Adv: n}}}
 	return res
 }
+
+// runBacklog: n completed one-block syncs of one publisher (explicit and announce-triggered in
+// turn) with a listener that reads at once, one that does not read until it has been
+// cancelled, one that does not read until Close, and one that reads one notification every
+// ten syncs.  Each must receive every notification between its registration and its
+// cancel / the close, in order, no gap, then find the channel closed: a bounded or lossy
+// per-listener queue shows as soon as n exceeds its size.
+func runBacklog(sc Scenario) (res Result) {
+	res.Sc = sc
+	t0 := time.Now()
+	n := sc.Rounds[0][0].Adv
+	p := subdrv.NewPub(0, sc.Seed)
+	defer p.Close()
+	p.Extend(n + 1)
+	pubs := []*subdrv.Pub{p}
+	w := subdrv.NewWorld(pubs)
+	sched := subdrv.NewSched(pubs, nil, nil, 0)
+	sched.Install()
+	defer sched.Uninstall()
+	closed := false
+	defer func() {
+		if !closed {
+			subdrv.Call(watchdog, func() { w.Sub.Close() })
+		}
+	}()
+	mk := func(kind string) *liveListener {
+		l := &liveListener{spec: ListenerSpec{Kind: kind, RegRound: -1, CanRound: -1}, done: make(chan struct{}), start: make(chan struct{})}
+		l.ch, l.cancel = w.Sub.OnSyncFinished()
+		return l
+	}
+	ref := mk("fast")
+	go ref.reader()
+	cancelled := mk("stalled") // drained after its cancel
+	go cancelled.reader()
+	tillClose := mk("stalled") // drained after Close
+	go tillClose.reader()
+	sparse := mk("sparse") // one read every ten syncs, the rest after Close
+	sparseGot := 0
+	var sparseRecv []dagsync.SyncFinished
+
+	p.SetHead(0)
+	if _, err := w.Sub.SyncAdChain(context.Background(), p.Info()); err != nil {
+		res.fail("backlog:setup", err.Error())
+		return
+	}
+	for i := 1; i <= n-1; i++ {
+		p.SetHead(i)
+		if i%2 == 0 {
+			if err := w.Sub.Announce(context.Background(), p.Chain[i], p.Info()); err != nil {
+				res.fail("backlog:announce", err.Error())
+				return
+			}
+		} else {
+			ok, _ := subdrv.Call(watchdog, func() { _, _ = w.Sub.SyncAdChain(context.Background(), p.Info()) })
+			if !ok {
+				res.fail("backlog:sync-blocked", fmt.Sprintf("sync %d of %d did not return with stalled listeners %d notifications behind", i, n, i))
+				return
+			}
+		}
+		deadline := time.Now().Add(watchdog)
+		for {
+			ref.mu.Lock()
+			got := len(ref.recv)
+			ref.mu.Unlock()
+			if got >= i+1 {
+				break
+			}
+			if time.Now().After(deadline) {
+				res.fail("backlog:reader-blocked", fmt.Sprintf("the reading listener did not get notification %d of %d", i+1, n))
+				return
+			}
+			time.Sleep(50 * time.Microsecond)
+		}
+		if i%10 == 0 {
+			select {
+			case ev := <-sparse.ch:
+				sparseRecv = append(sparseRecv, ev)
+				sparseGot++
+			case <-time.After(watchdog):
+				res.fail("backlog:sparse-reader-blocked", "a listener with queued notifications could not read one")
+				return
+			}
+		}
+	}
+	conv := func(evs []dagsync.SyncFinished) []Ev {
+		var out []Ev
+		for _, e := range evs {
+			ci := p.Index(e.Cid)
+			out = append(out, Ev{Sid: ci, Async: ci > 0 && ci%2 == 0, Pub: 0, Cid: ci, Cnt: e.Count, Err: e.Err != nil})
+		}
+		return out
+	}
+	drain := func(l *liveListener, what string) []Ev {
+		close(l.start)
+		select {
+		case <-l.done:
+		case <-time.After(2 * watchdog):
+			res.fail("listener:not-closed:"+what, fmt.Sprintf("the channel of the listener drained after %s was not closed", what))
+		}
+		l.mu.Lock()
+		defer l.mu.Unlock()
+		return conv(l.recv)
+	}
+	// cancel one stalled listener with its whole backlog queued, then let it read
+	cancelled.cancel()
+	cRecv := drain(cancelled, "cancel")
+	subdrv.Call(watchdog, func() { w.Sub.Close() })
+	closed = true
+	tRecv := drain(tillClose, "close")
+sparseLoop:
+	for {
+		select {
+		case ev, open := <-sparse.ch:
+			if !open {
+				break sparseLoop
+			}
+			sparseRecv = append(sparseRecv, ev)
+		case <-time.After(2 * watchdog):
+			res.fail("listener:not-closed:sparse", "the channel of the listener reading every tenth sync was not closed by Close")
+			break sparseLoop
+		}
+	}
+	close(ref.start)
+	select {
+	case <-ref.done:
+	case <-time.After(watchdog):
+	}
+	ref.mu.Lock()
+	res.Fwd = conv(ref.recv)
+	ref.mu.Unlock()
+	for _, x := range []struct {
+		what string
+		recv []Ev
+		can  []int
+	}{{"cancel", cRecv, []int{n, n}}, {"close", tRecv, nil}, {"sparse-reads", conv(sparseRecv), nil}} {
+		o := ObsListener{Spec: ListenerSpec{Kind: "stalled", RegRound: -1, CanRound: -1}, Cancel: x.can, Recv: x.recv, Closed: true}
+		res.Listeners = append(res.Listeners, o)
+		if len(x.recv) != n || !windowOK(res.Fwd, o) {
+			res.fail(fmt.Sprintf("backlog:%s:lost-%d-of-%d", x.what, n-len(x.recv), n),
+				fmt.Sprintf("a listener that was %d notifications behind (read after %s) received %d of the %d notifications queued for it; first received: %s", n, x.what, len(x.recv), n, evs(firstN(x.recv, 3))))
+		}
+	}
+	if len(res.Fwd) != n {
+		res.fail("backlog:events", fmt.Sprintf("%d syncs, the reading listener got %d notifications", n, len(res.Fwd)))
+	}
+	res.DurMs = float64(time.Since(t0).Microseconds()) / 1000
+	return res
+}
+
+func firstN(l []Ev, k int) []Ev {
+	if len(l) > k {
+		return l[:k]
+	}
+	return l
+}
